@@ -482,4 +482,209 @@ def run (σ : State) : List Op → State
     | .ok σ' => run σ' ops
     | .error _ => run σ ops
 
+
+/-! ### Tractograms over the sequence heap (nibabel/streamlines/tractogram.py)
+
+  A `Tractogram` holds `streamlines` (an ArraySequence) and `data_per_point`, a
+  `PerArraySequenceDict` (key → ArraySequence, in insertion order) with its `n_rows`.  Every
+  sequence a tractogram holds is one of the live sequences of the `State`, so the ordinary
+  sequence operations apply to it (`t.streamlines.append(..)`, `t.data_per_point['fa'] += 1` …).
+  `data_per_streamline` holds plain ndarrays that are re-allocated on every change
+  (`np.concatenate`) and is not modelled. -/
+
+structure Tract where
+  sl : Nat                       -- `_streamlines`
+  dpp : List (Nat × Nat)         -- `data_per_point.store`: (key, sequence), insertion order
+  nRows : Nat                    -- `data_per_point.n_rows`
+  deriving Repr, DecidableEq, Inhabited
+
+structure TState where
+  st : State
+  tracts : List Tract
+  deriving Repr, DecidableEq, Inhabited
+
+def TState.init : TState := ⟨State.init, []⟩
+def TState.tractAt (τ : TState) (i : Nat) : Tract := τ.tracts.getD i default
+
+/-- every sequence a tractogram holds -/
+def Tract.members (t : Tract) : List Nat := t.sl :: t.dpp.map (·.2)
+
+/-- `seq.total_nb_rows` -/
+def totalRows (σ : State) (t : Nat) : Nat := ((σ.seqAt t).ranges.map (·.2)).sum
+
+/-- `ArraySequence()` as a new live sequence (the `.new` operation) -/
+def newSeq (σ : State) (bb : Nat) : State :=
+  let (σ', id) := σ.alloc { rows := [], cap := 0, dt := 0 }
+  σ'.addSeq { buf := id, ranges := [], isView := false, bufBytes := bb }
+
+/-- `ArraySequence(value)` (tractogram.py:186, 358) as a new live sequence with index `σ.seqs.length`:
+    `value` an ArraySequence → a VIEW of it (which detaches itself before it grows);
+    `value` a list of arrays (`asList`) → a new owner filled by `extend` -/
+def seqFrom (σ : State) (src : Nat) (asList : Bool) (w : Nat) : State :=
+  if asList then extendSeq (newSeq σ defaultBufBytes) σ.seqs.length src w
+  else viewCtor σ src defaultBufBytes
+
+/-- the test of `PerArraySequenceDict.__setitem__`, tractogram.py:189: `0 < self.n_rows != value.total_nb_rows`
+    raises ValueError; `true` = accepted -/
+def dppCheck (nRows total : Nat) : Bool := !(decide (0 < nRows) && nRows != total)
+
+/-- `store[key] = value` of a dict kept as an association list in insertion order -/
+def dictSet : List (Nat × Nat) → Nat → Nat → List (Nat × Nat)
+  | [], k, v => [(k, v)]
+  | (k', v') :: rest, k, v => if k' = k then (k, v) :: rest else (k', v') :: dictSet rest k v
+
+def dictGet (d : List (Nat × Nat)) (k : Nat) : Option Nat := (d.find? (·.1 = k)).map (·.2)
+
+/-- `PerArraySequenceDict.__setitem__(key, seqs[src])`, tractogram.py:185-193; the stored sequence is a NEW
+    live sequence; `none` = ValueError (nothing stored, the temporary dies) -/
+def dppSet (σ : State) (d : List (Nat × Nat)) (nRows : Nat) (k src : Nat) (asList : Bool) (w : Nat) :
+    Option (State × List (Nat × Nat)) :=
+  let σ1 := seqFrom σ src asList w
+  if dppCheck nRows (totalRows σ1 σ.seqs.length) then some (σ1, dictSet d k σ.seqs.length) else none
+
+/-- `PerArraySequenceDict(n_rows, {k: seqs[f], …})`: `update` calls `__setitem__` key by key -/
+def mkDpp (nRows : Nat) (asList : Bool) (w : Nat) :
+    State → List (Nat × Nat) → List (Nat × Nat) → Option (State × List (Nat × Nat))
+  | σ, d, [] => some (σ, d)
+  | σ, d, (k, f) :: rest =>
+      match dppSet σ d nRows k f asList w with
+      | some (σ1, d1) => mkDpp nRows asList w σ1 d1 rest
+      | none => none
+
+/-- `Tractogram(seqs[src] | None, data_per_point={k: seqs[f]})`, tractogram.py:319-378 -/
+def tnew (τ : TState) (src : Option Nat) (dpp : List (Nat × Nat)) (asList : Bool) (w : Nat) : Option TState :=
+  let σ := τ.st
+  let σ1 := match src with
+    | none => newSeq σ defaultBufBytes
+    | some s => seqFrom σ s asList w
+  let n := totalRows σ1 σ.seqs.length
+  match mkDpp n asList w σ1 [] dpp with
+  | some (σ2, d) => some ⟨σ2, τ.tracts ++ [⟨σ.seqs.length, d, n⟩]⟩
+  | none => none
+
+/-- index of `Tractogram.__getitem__`: a slice or a list of integers -/
+inductive TIdx where
+  | slice (sl : PySlice)
+  | fancy (idx : List Int)
+  deriving Repr, DecidableEq, Inhabited
+
+/-- positions an index selects in a sequence of `n` arrays (each sequence of the tractogram is indexed
+    on its own, tractogram.py:403-411) -/
+def idxPos (n : Nat) : TIdx → Except Err (List Nat)
+  | .slice sl => if sl.stepVal = 0 then .error .value else .ok (sl.sel n)
+  | .fancy idx => match fancyPos n idx with
+    | some p => .ok p
+    | none => .error .index
+
+/-- the index applied to every sequence of the list: the temporaries `seq[idx]` -/
+def idxAll (σ : State) (idx : TIdx) : List (Nat × Nat) → Except Err (List (Nat × Nat × List Nat))
+  | [] => .ok []
+  | (k, f) :: rest =>
+      match idxPos (σ.seqAt f).ranges.length idx with
+      | .error e => .error e
+      | .ok p => match idxAll σ idx rest with
+        | .error e => .error e
+        | .ok r => .ok ((k, f, p) :: r)
+
+/-- `PerArraySequenceDict(n_rows, {k: seqs[f][pos]})` -/
+def mkDppViews (nRows : Nat) : State → List (Nat × Nat) → List (Nat × Nat × List Nat) →
+    Option (State × List (Nat × Nat))
+  | σ, d, [] => some (σ, d)
+  | σ, d, (k, f, pos) :: rest =>
+      let σ1 := getView σ f pos
+      if dppCheck nRows (totalRows σ1 σ.seqs.length) then mkDppViews nRows σ1 (dictSet d k σ.seqs.length) rest
+      else none
+
+/-- `T[idx]` (slice or list), tractogram.py:402-418: views of the streamlines and of every per-point
+    sequence, wrapped once more by `ArraySequence(view)` (same buffer, same ranges, `_is_view`) -/
+def tget (τ : TState) (T : Nat) (idx : TIdx) : Except Err TState :=
+  let t := τ.tractAt T
+  let σ := τ.st
+  match idxPos (σ.seqAt t.sl).ranges.length idx with
+  | .error e => .error e
+  | .ok p =>
+    match idxAll σ idx t.dpp with
+    | .error e => .error e
+    | .ok views =>
+      let σ1 := getView σ t.sl p
+      let n := totalRows σ1 σ.seqs.length
+      match mkDppViews n σ1 [] views with
+      | some (σ2, d) => .ok ⟨σ2, τ.tracts ++ [⟨σ.seqs.length, d, n⟩]⟩
+      | none => .error .value
+
+def keysOf (d : List (Nat × Nat)) : List Nat := (d.map (·.1)).mergeSort (fun a b => decide (a ≤ b))
+
+/-- the loop of `PerArrayDict.extend`, tractogram.py:166-170 with `_extend_entry` of
+    `PerArraySequenceDict` (195-197): a key the receiver lacks gets `ArraySequence(other[key])` — a VIEW of
+    the donor's sequence —, a key it has is extended.  `some .value` = ValueError part-way (what was done
+    stays done). -/
+def dppExtend (nRows w : Nat) : State → List (Nat × Nat) → List (Nat × Nat) →
+    State × List (Nat × Nat) × Option Err
+  | σ, d, [] => (σ, d, none)
+  | σ, d, (k, f) :: rest =>
+      match dictGet d k with
+      | none =>
+          match dppSet σ d nRows k f false w with
+          | some (σ1, d1) => dppExtend nRows w σ1 d1 rest
+          | none => (σ, d, some .value)
+      | some mine => dppExtend nRows w (extendSeq σ mine f w) d rest
+
+/-- `T.extend(U)` / `T += U`, tractogram.py:502-529 (the streamlines are extended first; the key test of
+    `PerArrayDict.extend` comes after that) -/
+def textend (τ : TState) (T U : Nat) (w : Nat) : TState × Option Err :=
+  let t := τ.tractAt T
+  let u := τ.tractAt U
+  let σ1 := extendSeq τ.st t.sl u.sl w
+  if !t.dpp.isEmpty && !u.dpp.isEmpty && keysOf t.dpp != keysOf u.dpp then (⟨σ1, τ.tracts⟩, some .value)
+  else
+    let n := t.nRows + u.nRows
+    let (σ2, d, e) := dppExtend n w σ1 t.dpp u.dpp
+    (⟨σ2, τ.tracts.set T { t with dpp := d, nRows := n }⟩, e)
+
+/-- `T.data_per_point[k] = seqs[src]` -/
+def tset (τ : TState) (T k src : Nat) (asList : Bool) (w : Nat) : Option TState :=
+  let t := τ.tractAt T
+  match dppSet τ.st t.dpp t.nRows k src asList w with
+  | some (σ1, d) => some ⟨σ1, τ.tracts.set T { t with dpp := d }⟩
+  | none => none
+
+inductive TOp where
+  | seq (op : Op)
+  | tnew (src : Option Nat) (dpp : List (Nat × Nat)) (asList : Bool) (w : Nat)
+  | tget (T : Nat) (idx : TIdx)
+  | textend (T U : Nat) (w : Nat)
+  | tset (T k src : Nat) (asList : Bool) (w : Nat)
+  deriving Repr, DecidableEq, Inhabited
+
+/-- one step of a tractogram history: the new state (an operation that raises may have changed it:
+    `Tractogram.extend`) and the error raised, if any -/
+def tstep (τ : TState) : TOp → TState × Option Err
+  | .seq op => match step τ.st op with
+    | .ok σ' => (⟨σ', τ.tracts⟩, none)
+    | .error e => (τ, some e)
+  | .tnew src dpp asList w =>
+      if (match src with | none => true | some s => decide (s < τ.st.seqs.length)) &&
+          dpp.all (fun kf => decide (kf.2 < τ.st.seqs.length)) then
+        match tnew τ src dpp asList w with
+        | some τ' => (τ', none)
+        | none => (τ, some .value)
+      else (τ, some .bad)
+  | .tget T idx =>
+      if T < τ.tracts.length then
+        match tget τ T idx with
+        | .ok τ' => (τ', none)
+        | .error e => (τ, some e)
+      else (τ, some .bad)
+  | .textend T U w => if T < τ.tracts.length ∧ U < τ.tracts.length then textend τ T U w else (τ, some .bad)
+  | .tset T k src asList w =>
+      if T < τ.tracts.length ∧ src < τ.st.seqs.length then
+        match tset τ T k src asList w with
+        | some τ' => (τ', none)
+        | none => (τ, some .value)
+      else (τ, some .bad)
+
+def trun (τ : TState) : List TOp → TState
+  | [] => τ
+  | op :: ops => trun (tstep τ op).1 ops
+
 end Nb.C15
